@@ -91,8 +91,9 @@ def schedule(rnd):
         d = D.date(*ds[:3]) + D.timedelta(days); return (d.year, d.month, d.day) + tuple(ds[3:])
     if kind != 'rdate' and kind != 'single': L += ['RRULE:' + x for x in rt]
     if kind in ('rdate', 'rule+rdate'):
-        vals = sorted(set(near(rnd.randint(1, 400)) for _ in range(rnd.randint(1, 6))))
-        L.append(('RDATE:' if timed else 'RDATE;VALUE=DATE:') + ','.join(rrgen.dt_text(v) for v in vals))
+        vals = sorted(set(near(rnd.randint(1, 900)) for _ in range(rnd.choice([1, 2, 3, 6, 6, 40, 70, 150]))))
+        for a in range(0, len(vals), 45):          # several RDATE lines, each within the line limit
+            L.append(('RDATE:' if timed else 'RDATE;VALUE=DATE:') + ','.join(rrgen.dt_text(v) for v in vals[a:a + 45]))
     if kind == 'rule+ex':
         if rnd.random() < 0.6: L.append(('EXDATE:' if timed else 'EXDATE;VALUE=DATE:') + ','.join(rrgen.dt_text(near(x)) for x in sorted(rnd.sample(range(0, 60), 3))))
         else: L.append('EXRULE:FREQ=WEEKLY;BYDAY=%s' % rrgen.WD[D.date(*ds[:3]).weekday()])
